@@ -51,7 +51,7 @@ func genLive(seed uint64, idx uint64, thorough bool) tlive.Scenario {
 		sc.MaxW = r.Range(1, 9)
 	}
 	fam := []string{"delays", "delays", "concurrent", "busy", "saturated", "winddown", "moves", "selfnil"}[r.Intn(8)]
-	if r.Chance(1, 16) {
+	if r.Chance(1, 24) {
 		fam = "cancelstorm"
 	}
 	sc.Family = fam
@@ -228,7 +228,7 @@ func genLive(seed uint64, idx uint64, thorough bool) tlive.Scenario {
 		// while other Cancels move futures inside the heap. Every goroutine cancels its share
 		// in a tight loop (act cancelmany: one time stamp before, one after the loop).
 		sc.NG = r.Range(6, 24)
-		n := r.Range(300, 560)
+		n := r.Range(240, 440)
 		base := int64(r.Range(70, 130)) * 1000
 		step := int64(r.Range(20, 80))
 		for i := 0; i < n; i++ {
@@ -308,7 +308,11 @@ func runScenario(sc tlive.Scenario, seed uint64) childLine {
 		counts["live-rerun-after-missing-start"]++
 	}
 	l := childLine{Case: sc, Counts: counts}
-	snaps := tlive.PickSnaps(sc, res, 6)
+	nsnap := 6
+	if sc.Family == "cancelstorm" {
+		nsnap = 3 // hundreds of slots per snapshot
+	}
+	snaps := tlive.PickSnaps(sc, res, nsnap)
 	l.Term = tlive.Term(sc, res, snaps)
 	l.NonTriv = liveNontrivial(sc, res)
 	if res.NotQuiet == "" {
